@@ -21,10 +21,11 @@ def qLine (ws : List String) : String := Id.run do
   let mut issues : List String := []
   -- clauses on the implementation's output
   if sortedCopy data ≠ sortedCopy out then issues := issues ++ ["ORACLE C18 the slice is not a permutation of its input"]
-  if cancel.isNone then
-    if ret then issues := issues ++ ["ORACLE C18 reported 'cancelled' although the cancel flag was never raised"]
+  if ret && get "raised" = "0" then issues := issues ++ ["ORACLE C18 reported 'cancelled' although the cancel flag was never raised"]
+  if !ret then
+    -- whatever happened to the flag: a sort that reports 'not cancelled' must have sorted
     let ok := (List.range (out.size - 1)).all fun i => !(lt out[i + 1]! out[i]!)
-    if !ok then issues := issues ++ ["ORACLE C18 the slice is not in non-decreasing order under the comparison"]
+    if !ok then issues := issues ++ [s!"ORACLE C18 the sort reported 'not cancelled' but the slice is not in non-decreasing order under the comparison (flag raised: {get "raised"}, at comparison {get "cmpcancel"})"]
   if get "same" ≠ "1" then issues := issues ++ [s!"ORACLE C18 the result with {get "threads"} threads differs from the result with 1 thread"]
   -- model
   let cancelAt : Nat → Bool := match cancel with
